@@ -59,6 +59,20 @@ class Catcher:
         return "Catcher(..)"
 
 
+class Returner:
+    """A user transform that hands back an object that already exists (a caller-owned instance, or another value of
+    the receiver) whatever it is given.  Snapshots walk into `obj`: it is an argument object like any other."""
+
+    def __init__(self, obj):
+        self.obj = obj
+
+    def __call__(self, _value):
+        return self.obj
+
+    def __repr__(self):
+        return "Returner(..)"
+
+
 class Box:
     """A deliberately mutable user value (not a spec class)."""
 
@@ -150,6 +164,8 @@ class Snapshot:
             content = ["KeyedSet", self._visit(d.get("_dict")), bool(d.get("enforce_item_equivalence"))]
         elif isinstance(x, Box):
             content = ["Box", self._visit(x.v)]
+        elif isinstance(x, Returner):
+            content = ["Returner", self._visit(x.obj)]
         elif is_spec_instance(x):
             content = ["spec", type(x).__name__,
                        [[k, self._visit(v)] for k, v in x.__dict__.items() if k not in self.ignore_attrs]]
